@@ -198,6 +198,8 @@ fn plan_c02(thorough: bool) -> Plan {
         cases.extend(enum_commit_histories(2, 14, 2, &a, &mk_case("empty", vec!["U2"], &c, "root", true)));
     }
     cases.extend(crate::plans2::tombstone_family("root", thorough));
+    // the extremes of the key space (all-zero / all-one keys and their neighbours)
+    cases.extend(enum_commit_histories(2, 6, if thorough { 3 } else { 2 }, &a, &mk_case("empty", vec!["EXT"], &cfg, "root", true)));
     // roots of finished sessions on overlay chains: an ancestor inserts "round" keys (the exclusive
     // upper end of the key range of the sub-trie on their left), a descendant writes into that
     // sub-trie, whose only leaf is on disk; both orders of the two batches, chains of 2 and 3
